@@ -61,6 +61,7 @@ Definition dispatch (fid : Z) (v : value) : value :=
                               (as_q (vnth 5 v)) (as_z (vnth 6 v)) (as_z (vnth 7 v)) (as_q (vnth 8 v)) in
           VL [of_omap (fst r); of_omap (snd r)]
   | 8 => of_qmap (var_raster (as_z (vnth 0 v)) (as_qss (vnth 1 v)))
+  | 11 => of_omap (std_band (as_q (vnth 0 v)) (as_z (vnth 1 v)) (as_omap (vnth 2 v)))
   | 9 => of_omap (normalize_percentile (as_b (vnth 0 v)) (as_q (vnth 1 v)) (as_qss (vnth 2 v)))
   | _ => VL [VZ (-1)]
   end.
